@@ -463,6 +463,7 @@ func (l *lexer) emitEOF() {
 	l.tokens <- Token{
 		Location: l.prev, // Point to previous position for better error messages.
 		Kind:     EOF,
+		EndAt:    l.end, // nothing follows: the epilogue of a file without a second %% is empty
 	}
 	l.start = l.end
 	l.startLoc = l.loc
